@@ -299,6 +299,8 @@ pub fn run(ctx: &Ctx) -> Report {
             let mut r = Rng::derive(ctx.seed, &[tag("c06-id"), t as u64, k as u64]);
             let c = Cfg::hostile(0.3, 3, 4);
             let s = gen::shape(t, &mut r, &c);
+            // every fourth value carries NaN coordinates as well
+            let s = if k % 4 == 3 && !gen::is_point(t) { crate::shapes::with_nan_xy(&s, 2, (k % 3) as u8) } else { s };
             rep.eval();
             rep.class("identity");
             let code_by_table = variant_code(&s);
